@@ -791,6 +791,7 @@ pub fn replay_one(spec: &str, out_dir: &str, c08: bool) -> i32 {
                 }
                 "restore" => prop_restore(&*imp, &key, &[(bu(1), bu(2)), (&key.n - bu(1), &key.n - bu(1))], &mut out),
                 "add" if c08 => crate::c08::prop_add(&*imp, &key, &a[0], &a[1], &a[2], &a[3], &mut out, true),
+                "addc" if c08 => crate::c08::prop_add_c(&*imp, &key, "addc", &a[0], &a[1], &a[2], &a[3], &mut out, true),
                 "mul" if c08 => crate::c08::prop_mul(&*imp, &key, &a[0], &a[1], &a[2], &mut out, true),
                 other => {
                     eprintln!("unknown replay property {other}");
